@@ -1,4 +1,22 @@
-// Driver TU: forces emission of the inline QSBR per-thread entry points.
+// Driver TU: forces emission of the inline QSBR per-thread entry points (IR is taken with -fno-access-control; the wrappers only forward).
 #include "global.hpp"
 #include "qsbr.hpp"
-namespace verif_driver { void use(unodb::qsbr_per_thread& t) { t.quiescent(); t.qsbr_pause(); t.qsbr_resume(); } }
+namespace verif_driver {
+void use(unodb::qsbr_per_thread& t) { t.quiescent(); t.qsbr_pause(); t.qsbr_resume(); }
+void construct(void* at) { new (at) unodb::qsbr_per_thread(); }
+void defer(unodb::qsbr_per_thread& t, void* p, std::size_t n) {
+#ifdef UNODB_DETAIL_WITH_STATS
+#ifdef NDEBUG
+  t.on_next_epoch_deallocate(p, n);
+#else
+  t.on_next_epoch_deallocate(p, n, [](const void*) {});
+#endif
+#else
+#ifdef NDEBUG
+  t.on_next_epoch_deallocate(p);
+#else
+  t.on_next_epoch_deallocate(p, [](const void*) {});
+#endif
+#endif
+}
+}
